@@ -17,6 +17,7 @@ colon, consist of whole lines, and read back - by the model's own 15-line field 
 The candidate the implementation agrees with becomes the next model state (an "environment answer").
 """
 import collections
+import io
 
 SENT = "\x00<X>\x00"
 
@@ -174,7 +175,30 @@ def parse_par_text(text, expect):
 # ---------------------------------------------------------------- model operations
 
 def _key(k):
-    return (k, None) if isinstance(k, str) else (k[0], k[1])
+    """key of an operation -> (name, index | None).  ("tok", name, i) stands for the field-name token object of the i-th
+    occurrence (obtained from the live paragraph right before the call): it denotes exactly that occurrence"""
+    if isinstance(k, str):
+        return (k, None)
+    if len(k) == 3 and k[0] == "tok":
+        return (k[1], k[2])
+    return (k[0], k[1])
+
+
+SORT_KEYS = {
+    "default": None,
+    "lower": lambda n: str(n).lower(),
+    "case-sensitive": lambda n: str(n),
+    "reversed-spelling": lambda n: str(n).lower()[::-1],
+    "length": lambda n: len(n),
+}
+
+
+def split_build(fields):
+    """fields of a new paragraph, optionally led by ("@", how-it-is-built) -> (how, fields)"""
+    fields = tuple(tuple(x) for x in fields)
+    if fields and fields[0][0] == "@":
+        return fields[0][1], fields[1:]
+    return "setitem", fields
 
 
 def occ(par, name):
@@ -222,6 +246,11 @@ def enabled(doc, op):
     if op[0] == "tset":
         ps = pars(doc)
         return op[1] < len(ps) and len(occ(ps[op[1]], op[2])) == 1 and op[3] not in INVALID_VALUES
+    if op[0] == "clear":
+        ps = pars(doc)
+        return op[1] < len(ps) and len(ps[op[1]]) > 0
+    if not _how_applies(doc, op):
+        return False
     if must_reject(doc, op):
         return True
     t = op[0]
@@ -261,9 +290,52 @@ def enabled(doc, op):
 
 INVALID_VALUES = ("x\ny", "x\n\n y")
 
+# other public ways of performing a dict-style assignment / deletion (5th element of a "set", 4th of a "del" operation)
+SET_HOWS = ("item", "update", "update-pairs", "setdefault", "simple", "simple-keep", "raw", "raw-keep", "view",
+            "view-raw", "view-opts", "view-no-final-newline", "view-no-first-line-mapping")
+DEL_HOWS = ("item", "pop", "pop-default", "remove", "view", "view-opts", "popitem")
+
+
+def how_of(op):
+    if op[0] == "set":
+        return op[4] if len(op) > 4 else "item"
+    if op[0] == "del":
+        return op[3] if len(op) > 3 else "item"
+    return "item"
+
+
+def _how_applies(doc, op):
+    how = how_of(op)
+    if how == "item":
+        return True
+    if op[0] == "set":
+        if how.startswith("simple") and "\n" in op[3]:
+            return False          # documented: set_field_to_simple_value refuses values with newlines
+        if how in ("simple-keep", "raw-keep", "view-opts") and isinstance(op[2], str):
+            ps = pars(doc)
+            if op[1] < len(ps) and len(occ(ps[op[1]], op[2])) > 1:
+                return False      # documented: preserve_original_field_comment=True refuses an ambiguous key
+        return True
+    if how == "popitem":
+        ps = pars(doc)
+        if op[1] >= len(ps) or not isinstance(op[2], str):
+            return False
+        par = ps[op[1]]
+        return bool(par) and par[0].name.lower() == op[2].lower() and len(occ(par, op[2])) == 1
+    return True
+
+
+def raw_value(value):
+    """the raw text (everything after the colon) that the dict interface itself builds for a value"""
+    if "\n" not in value:
+        return " " + value.strip() + "\n"
+    first, rest = value.split("\n", 1)
+    raw = " " + first.strip() + "\n" + rest
+    return raw if raw.endswith("\n") else raw + "\n"
+
 
 def must_reject(doc, op):
-    if op[0] == "tset":
+    if op[0] in ("tset", "clear"):
         return False
     return _must_reject(doc, op)
 
@@ -305,9 +377,14 @@ def step(doc, op, new_par_fields=None):
         return _insert(doc, op, new_par_fields)
     ii = _par_item(doc, op[1])
     par = doc[ii][1]
+    if t == "clear":
+        return [(d, None) for d in _remove_variants(doc, ii, list(range(len(par))))]
+    if t == "set" and how_of(op) == "setdefault" and occ(par, _key(op[2])[0]):
+        return [(copy_doc(doc), None)]          # setdefault on a present field changes nothing
     if t == "sort":
         d = copy_doc(doc)
-        d[ii][1].sort(key=lambda f: f.name.lower())
+        kf = SORT_KEYS[op[2]] if len(op) > 2 else None
+        d[ii][1].sort(key=(lambda f: kf(f.name)) if kf else (lambda f: f.name.lower()))
         return [(d, None)]
     name, idx = _key(op[2])
     o = occ(par, name)
@@ -430,10 +507,54 @@ def model_view(doc):
 _TOKENS = {}
 
 
-def parse_impl(text):
+ORIGINS = ("str", "bytes", "tuple", "generator", "fd-bytes", "fd-text", "bare-lines", "reparse", "built")
+
+
+def origin_applies(text, origin):
+    """lines given without their newlines stand for a terminated document of two or more lines"""
+    return origin != "bare-lines" or (text.endswith("\n") and text.count("\n") >= 2)
+
+
+def parse_impl(text, origin="str"):
+    """the file object for a document text; `origin` = the way it comes into being (the input kinds
+    parse_deb822_file documents: an iterable of str or bytes lines, an open file; a second parse of a first
+    parse's dump; or no parse at all - paragraphs built from mappings and appended to an empty file)"""
     from debian._deb822_repro import parse_deb822_file
-    f = parse_deb822_file(text.splitlines(True), accept_files_with_error_tokens=True,
-                          accept_files_with_duplicated_fields=True)
+    from debian._deb822_repro.parsing import Deb822FileElement, Deb822ParagraphElement
+    lines = text.splitlines(True)
+    if origin == "built":
+        f = Deb822FileElement.new_empty_file()
+        for chunk in text.split("\n\n"):
+            fields = collections.OrderedDict()
+            for l in chunk.splitlines(True):
+                if l[0] in " \t":
+                    fields[next(reversed(fields))] += l
+                else:
+                    fields[l.split(":", 1)[0]] = l
+            par = Deb822ParagraphElement.from_dict(collections.OrderedDict((n, read_value(b)) for n, b in fields.items()))
+            if not list(f):
+                f.insert(0, par)          # (into the empty file)
+            else:
+                f.append(par)
+    else:
+        if origin == "bytes":
+            seq = [l.encode("utf-8") for l in lines]
+        elif origin == "tuple":
+            seq = tuple(lines)
+        elif origin == "generator":
+            seq = (l for l in lines)
+        elif origin == "fd-bytes":
+            seq = io.BytesIO(text.encode("utf-8"))
+        elif origin == "fd-text":
+            seq = io.StringIO(text, newline="")
+        elif origin == "bare-lines":
+            seq = [l[:-1] for l in lines]
+        elif origin == "reparse":
+            seq = parse_deb822_file(lines, accept_files_with_error_tokens=True,
+                                    accept_files_with_duplicated_fields=True).dump().splitlines(True)
+        else:
+            seq = lines
+        f = parse_deb822_file(seq, accept_files_with_error_tokens=True, accept_files_with_duplicated_fields=True)
     _TOKENS.clear()
     _TOKENS["file"] = f
     return f
@@ -452,11 +573,27 @@ def field_token(f, pi, name):
 
 
 def build_par(fields):
+    """a new paragraph: fields assigned one by one to an empty paragraph (default), from_dict(), or from_kvpairs()
+    with the field elements of a separately parsed text"""
+    from debian._deb822_repro import parse_deb822_file
     from debian._deb822_repro.parsing import Deb822ParagraphElement
+    how, fields = split_build(fields)
+    if how == "from_dict":
+        return Deb822ParagraphElement.from_dict(collections.OrderedDict(fields))
+    if how == "from_kvpairs":
+        text = "".join("%s:%s" % (n, raw_value(v)) for n, v in fields)
+        tmp = next(iter(parse_deb822_file(text.splitlines(True), accept_files_with_duplicated_fields=True)))
+        return Deb822ParagraphElement.from_kvpairs(list(tmp.iter_parts()))
     p = Deb822ParagraphElement.new_empty_paragraph()
     for n, v in fields:
         p[n] = v
     return p
+
+
+def impl_key(p, k):
+    if isinstance(k, tuple) and len(k) == 3 and k[0] == "tok":
+        return p.get_kvpair_element((k[1], k[2])).field_token
+    return k
 
 
 def apply_impl(f, op):
@@ -468,24 +605,107 @@ def apply_impl(f, op):
         f.insert(op[1], build_par(op[2]))
         return
     p = list(f)[op[1]]
+    how = how_of(op)
     if t == "sort":
-        p.sort_fields()
+        if len(op) > 2:
+            p.sort_fields(key=SORT_KEYS[op[2]])
+        else:
+            p.sort_fields()
     elif t == "first":
-        p.order_first(op[2])
+        p.order_first(impl_key(p, op[2]))
     elif t == "last":
-        p.order_last(op[2])
+        p.order_last(impl_key(p, op[2]))
     elif t == "before":
-        p.order_before(op[2], op[3])
+        p.order_before(impl_key(p, op[2]), impl_key(p, op[3]))
     elif t == "after":
-        p.order_after(op[2], op[3])
+        p.order_after(impl_key(p, op[2]), impl_key(p, op[3]))
     elif t == "set":
-        p[op[2]] = op[3]
+        return _apply_set(p, impl_key(p, op[2]), op[3], how)
     elif t == "tset":
         p[field_token(f, op[1], op[2])] = op[3]
     elif t == "del":
-        del p[op[2]]
+        return _apply_del(p, impl_key(p, op[2]), how)
+    elif t == "clear":
+        p.clear()
     else:
         raise AssertionError(op)
+
+
+def _opts_view(p):
+    return p.configured_view(discard_comments_on_read=False, auto_resolve_ambiguous_fields=False)
+
+
+def _apply_set(p, key, val, how):
+    if how == "item":
+        p[key] = val
+    elif how == "update":
+        p.update({key: val})
+    elif how == "update-pairs":
+        p.update([(key, val)])
+    elif how == "setdefault":
+        return ("setdefault", p.setdefault(key, val))
+    elif how == "simple":
+        p.set_field_to_simple_value(key, val)
+    elif how == "simple-keep":
+        p.set_field_to_simple_value(key, val, preserve_original_field_comment=True)
+    elif how == "raw":
+        p.set_field_from_raw_string(key, raw_value(val))
+    elif how == "raw-keep":
+        p.set_field_from_raw_string(key, raw_value(val), preserve_original_field_comment=True)
+    elif how == "view":
+        p.configured_view()[key] = val
+    elif how == "view-raw":
+        p.configured_view(auto_map_initial_line_whitespace=False,
+                          auto_map_final_newline_in_multiline_values=False)[key] = raw_value(val)
+    elif how == "view-opts":
+        _opts_view(p)[key] = val
+    elif how == "view-no-final-newline":
+        # (multi-line values must then carry their final newline themselves)
+        p.configured_view(auto_map_final_newline_in_multiline_values=False)[key] = \
+            val if "\n" not in val or val.endswith("\n") else val + "\n"
+    elif how == "view-no-first-line-mapping":
+        # (the value is taken as raw text; the final newline is still supplied)
+        raw = raw_value(val)
+        p.configured_view(auto_map_initial_line_whitespace=False)[key] = raw[:-1] if "\n" in raw[:-1] else raw
+    else:
+        raise AssertionError(how)
+
+
+def _apply_del(p, key, how):
+    if how == "item":
+        del p[key]
+    elif how == "pop":
+        return ("pop", p.pop(key))
+    elif how == "pop-default":
+        return ("pop", p.pop(key, None))
+    elif how == "remove":
+        p.remove_kvpair_element(key)
+    elif how == "view":
+        del p.configured_view()[key]
+    elif how == "view-opts":
+        del _opts_view(p)[key]
+    elif how == "popitem":
+        return ("popitem", p.popitem())
+    else:
+        raise AssertionError(how)
+
+
+def ret_check(doc, op, ret):
+    """value returned by the operation (pop, popitem, setdefault on a present field) against the model document
+    as it was before the operation -> None | (sig-suffix, expected, observed)"""
+    if ret is None:
+        return None
+    par = pars(doc)[op[1]]
+    name, idx = _key(op[2])
+    o = occ(par, name)
+    if not o:
+        return None
+    fld = par[o[idx or 0]]
+    want = read_value(fld.body)
+    if ret[0] == "popitem":
+        got = (str(ret[1][0]), ret[1][1])
+        return None if got == (fld.name, want) else ("returned-item", (fld.name, want), got)
+    return None if ret[1] == want else ("returned-value", want, ret[1])
 
 
 def impl_view_fresh(text):
@@ -547,14 +767,102 @@ def live_check(f, doc):
     return None
 
 
+def live_wide(f, doc):
+    """the other ways of reading a paragraph (get, items, values, len, iteration, membership, configured views, the
+    field elements' own text) -> None | (sig-suffix, exp, obs)"""
+    for p, mp in zip(list(f), pars(doc)):
+        names = [x.name for x in mp]
+        vals = [read_value(x.body) for x in mp]
+        unique = len(set(n.lower() for n in names)) == len(names)
+        raw = p.configured_view(discard_comments_on_read=False, auto_map_initial_line_whitespace=False,
+                                auto_map_final_newline_in_multiline_values=False)
+        cnt = collections.Counter()
+        try:
+            for fld in mp:
+                i = cnt[fld.name.lower()]
+                cnt[fld.name.lower()] += 1
+                got = raw[(fld.name, i)]
+                if got != fld.body[len(fld.name) + 1:]:
+                    return ("live/raw-view", fld.body[len(fld.name) + 1:], got)
+                got = p.get_kvpair_element((fld.name, i)).convert_to_text()
+                if got != fld.comment + fld.body:
+                    return ("live/field-element-text", fld.comment + fld.body, got)
+                if (fld.name, i) not in p or (fld.name.swapcase(), i) not in p:
+                    return ("live/contains-indexed", "(%r, %d) in paragraph" % (fld.name, i), False)
+            if len(p) != len(mp):
+                return ("live/len", len(mp), len(p))
+            if bool(p.has_duplicate_fields) != (not unique):
+                return ("live/has-duplicate-fields", not unique, p.has_duplicate_fields)
+            if [str(k) for k in iter(p)] != names:
+                return ("live/iter", names, [str(k) for k in iter(p)])
+            if p.get("Zz-absent") is not None or p.get("Zz-absent", 5) != 5:
+                return ("live/get-absent", "default", p.get("Zz-absent", 5))
+            if not unique:
+                continue
+            dflt = p.configured_view()
+            for how, got in (("get", [p.get(n) for n in names]), ("get-other-case", [p.get(n.swapcase()) for n in names]),
+                             ("items", [(str(k), v) for k, v in p.items()]), ("values", list(p.values())),
+                             ("dict", list(dict(p).items())), ("contains", [n in p and n.swapcase() in p for n in names]),
+                             ("default-view", [dflt[n] for n in names]), ("default-view-items", list(dflt.items())),
+                             ("opts-view", [_opts_view(p)[n] for n in names] if all("#" not in x.body for x in mp) else vals)):
+                want = list(zip(names, vals)) if how in ("items", "dict", "default-view-items") else \
+                    [True] * len(names) if how == "contains" else vals
+                if got != want:
+                    return ("live/" + how, want, got)
+        except Exception as e:
+            return ("live/wide-read-raises", "readable", "%s: %s" % (type(e).__name__, e))
+    return None
+
+
+def dump_routes(f, doc, dump):
+    """every other way of writing the document out against dump() (and the paragraphs' own dumps against the model)
+    -> None | (sig-suffix, exp, obs)"""
+    try:
+        got = f.convert_to_text()
+        if got != dump:
+            return ("via-convert-to-text", dump, got)
+        b = io.BytesIO()
+        f.dump(b)
+        if b.getvalue() != dump.encode("utf-8"):
+            return ("via-dump-fd", dump.encode("utf-8"), b.getvalue())
+        got = "".join(x.convert_to_text() for x in f.iter_parts())
+        if got != dump:
+            return ("via-iter-parts", dump, got)
+        want = ["".join(x.comment + x.body for x in mp) for mp in pars(doc)]
+        got = [p.dump() for p in f]
+        if got != want:
+            return ("via-paragraph-dump", want, got)
+        got = []
+        for p in f:
+            b = io.BytesIO()
+            p.dump(b)
+            got.append(b.getvalue().decode("utf-8"))
+        if got != want:
+            return ("via-paragraph-dump-fd", want, got)
+    except Exception as e:
+        return ("dump-route-raises", "dumps", "%s: %s" % (type(e).__name__, e))
+    return None
+
+
 def op_kind(doc, op):
     if op[0] == "tset":
         return "set-by-token"
+    if op[0] == "clear":
+        return "clear"
+    if op[0] == "sort":
+        return "sort" if len(op) < 3 else "sort/key-" + op[2]
+    if op[0] in ("insert", "append"):
+        how = split_build(op[-1])[0]
+        return op[0] if how == "setitem" else op[0] + "/via-" + how
     kind = op[0]
     if kind == "set" and not occ(pars(doc)[op[1]], _key(op[2])[0]):
         kind = "add"
     if kind not in ("insert", "append", "add", "sort") and not isinstance(op[2], str):
-        kind += "-indexed"
+        kind += "-by-token" if op[2][0] == "tok" and len(op[2]) == 3 else "-indexed"
+    if op[0] in ("before", "after") and isinstance(op[3], tuple) and len(op[3]) == 3 and op[3][0] == "tok":
+        kind += "/reference-by-token"
+    if how_of(op) != "item":
+        kind += "/via-" + how_of(op)
     return kind
 
 
@@ -562,7 +870,7 @@ def outcome_class(doc, op):
     if must_reject(doc, op):
         return op[0] + "/refused"
     k = op_kind(doc, op)
-    if k in ("set", "add", "set-indexed", "set-by-token"):
+    if k.split("/")[0] in ("set", "add", "set-indexed", "set-by-token"):
         k += "/multi-line" if "\n" in op[3] else "/single-line"
     if not render(doc).endswith("\n"):
         k += "/unterminated-doc"
@@ -572,23 +880,26 @@ def outcome_class(doc, op):
 def check_step(f, doc, op):
     """apply op to the live file object f and to the model doc -> (new doc | None, [(sig, expected, observed)])"""
     if must_reject(doc, op):
+        rk = op[0] + "-refused" + ("/via-" + how_of(op) if how_of(op) != "item" else "")
         try:
             apply_impl(f, op)
         except Exception as e:
             try:
                 dump = f.dump()
             except Exception as e2:
-                return None, [("doc/%s-refused/dump-raises" % op[0], "document unchanged", "%s: %s" % (type(e2).__name__, e2))]
+                return None, [("doc/%s/dump-raises" % rk, "document unchanged", "%s: %s" % (type(e2).__name__, e2))]
             nd, _why = match([(doc, None)], dump, check_step.nl_liberty)
             if nd is None:
-                return None, [("doc/%s-refused/document-changed" % op[0],
+                return None, [("doc/%s/document-changed" % rk,
                                "document unchanged after %s" % type(e).__name__, dump)]
             bad = live_check(f, nd)
+            if not bad and check_step.wide:
+                bad = live_wide(f, nd) or dump_routes(f, nd, dump)
             if bad:
-                return None, [("doc/%s-refused/%s" % (op[0], bad[0]), bad[1], bad[2])]
+                return None, [("doc/%s/%s" % (rk, bad[0]), bad[1], bad[2])]
             view, err = impl_view_fresh(dump)
             if err or view != model_view(nd):
-                return None, [("doc/%s-refused/reparse" % op[0], model_view(nd), view)]
+                return None, [("doc/%s/reparse" % rk, model_view(nd), view)]
             return nd, []
         return None, []          # accepted although it could have been refused: behaviour not in the statement
     newf = None
@@ -596,21 +907,26 @@ def check_step(f, doc, op):
         if op[0] in ("insert", "append"):
             fields = op[-1]
             ptxt = build_par(fields).dump()
-            newf = parse_par_text(ptxt, fields)
+            newf = parse_par_text(ptxt, split_build(fields)[1])
             if newf is None:
-                return None, [("doc/%s/new-paragraph-text" % op[0], "lines reading back as %r" % (fields,), ptxt)]
-        apply_impl(f, op)
+                return None, [("doc/%s/new-paragraph-text" % op_kind(doc, op), "lines reading back as %r" % (fields,), ptxt)]
+        ret = apply_impl(f, op)
         dump = f.dump()
     except Exception as e:
-        return None, [("doc/%s/raises" % op[0], "no exception", "%s: %s" % (type(e).__name__, e))]
+        return None, [("doc/%s/raises" % op_kind(doc, op), "no exception", "%s: %s" % (type(e).__name__, e))]
     cands = step(doc, op, newf)
     kind = op_kind(doc, op)
+    bad = ret_check(doc, op, ret)
+    if bad:
+        return None, [("doc/%s/%s" % (kind, bad[0]), bad[1], bad[2])]
     unterminated = "" if render(doc).endswith("\n") else "/unterminated-doc"
     nd, why = match(cands, dump, check_step.nl_liberty)
     if nd is None:
         exp = why or [render(terminate_inner(copy_doc(c[0]))) for c in cands[:3]]
         return None, [("doc/%s/bytes%s" % (kind, unterminated), exp, dump)]
     bad = live_check(f, nd)
+    if not bad and check_step.wide:
+        bad = live_wide(f, nd) or dump_routes(f, nd, dump)
     if bad:
         return None, [("doc/%s/%s" % (kind, bad[0]), bad[1], bad[2])]
     try:
@@ -624,65 +940,94 @@ def check_step(f, doc, op):
 
 
 check_step.nl_liberty = "strict"
+check_step.wide = False
 
 
-def run_history(spec, history, nl_liberty):
+def _route(route):
+    """route = None | {"origin": one of ORIGINS, "wide": bool} -> (origin, signature prefix)"""
+    route = route or {}
+    check_step.wide = bool(route.get("wide"))
+    origin = route.get("origin", "str")
+    return origin, ("via-%s/" % origin if origin != "str" else "")
+
+
+def run_history(spec, history, nl_liberty, route=None):
     """Full check of every step (used by replay).  -> (final model doc | None, violations)"""
     check_step.nl_liberty = nl_liberty
+    origin, pre = _route(route)
     doc = from_spec(spec)
     text = render(doc)
-    f = parse_impl(text)
+    if not origin_applies(text, origin):
+        return None, []
+    try:
+        f = parse_impl(text, origin)
+    except Exception as e:
+        return None, [(pre + "doc/initial-parse-raises", "parses", "%s: %s" % (type(e).__name__, e))]
     if f.dump() != text:
-        return None, [("doc/initial-dump", text, f.dump())]
-    bad = live_check(f, doc)
+        return None, [(pre + "doc/initial-dump", text, f.dump())]
+    bad = live_check(f, doc) or (check_step.wide and (live_wide(f, doc) or dump_routes(f, doc, text)))
     view, err = impl_view_fresh(text)
     if bad or err or view != model_view(doc):
-        return None, [("doc/initial-view", model_view(doc), bad or view)]
+        return None, [(pre + "doc/initial-view", model_view(doc), bad or view)]
     for op in history:
         if not enabled(doc, op):
             return None, []      # not a history of the model
         doc, bad = check_step(f, doc, op)
         if bad:
-            return None, bad
+            return None, [(pre + sig, exp, obs) for sig, exp, obs in bad]
         if doc is None:
             return None, []
     return doc, []
 
 
-def run_last(spec, prefix, doc_before, op, nl_liberty):
+def run_last(spec, prefix, doc_before, op, nl_liberty, route=None):
     """prefix was verified before: replay it blindly on a fresh object, then check op in full."""
     check_step.nl_liberty = nl_liberty
-    f = parse_impl(render(from_spec(spec)))
+    origin, pre = _route(route)
+    try:
+        f = parse_impl(render(from_spec(spec)), origin)
+    except Exception as e:
+        return None, [(pre + "doc/initial-parse-raises", "parses", "%s: %s" % (type(e).__name__, e))]
     for p in prefix:
         try:
             apply_impl(f, p)
         except Exception:
             pass              # a refused operation of the (already verified) prefix
-    return check_step(f, doc_before, op)
+    nd, bad = check_step(f, doc_before, op)
+    return nd, [(pre + sig, exp, obs) for sig, exp, obs in bad]
 
 
-def explore(part, spec, ops_fn, tree_depth, graph_depth, nl_liberty, base_case, graph_ops_fn=None, extend=None):
+def explore(part, spec, ops_fn, tree_depth, graph_depth, nl_liberty, base_case, graph_ops_fn=None, extend=None,
+            ops2_fn=None):
     """tree mode to tree_depth (every history replayed), then graph mode (dedupe on the model document) to
     graph_depth with graph_ops_fn's (smaller) alphabet.  extend(op): every operation is applied and checked at every
     level, but only histories whose operations all satisfy extend() are extended further."""
+    route = base_case.get("route")
+    origin, pre = _route(route)
     doc0 = from_spec(spec)
     text = render(doc0)
-    f = parse_impl(text)
-    if f.dump() != text:
-        part.violation("doc/initial-dump", dict(base_case, history=[]), text, f.dump())
+    if not origin_applies(text, origin):
         return
-    bad = live_check(f, doc0)
+    try:
+        f = parse_impl(text, origin)
+    except Exception as e:
+        part.violation(pre + "doc/initial-parse-raises", dict(base_case, history=[]), "parses", "%s: %s" % (type(e).__name__, e))
+        return
+    if f.dump() != text:
+        part.violation(pre + "doc/initial-dump", dict(base_case, history=[]), text, f.dump())
+        return
+    bad = live_check(f, doc0) or (check_step.wide and (live_wide(f, doc0) or dump_routes(f, doc0, text)))
     view, err = impl_view_fresh(text)
     if bad or err or view != model_view(doc0):
-        part.violation("doc/initial-view", dict(base_case, history=[]), model_view(doc0), bad or view)
+        part.violation(pre + "doc/initial-view", dict(base_case, history=[]), model_view(doc0), bad or view)
         return
     seen = {repr(to_spec(doc0))}
 
     def rec(hist, doc):
-        for op in ops_fn(doc):
+        for op in (ops_fn if not hist or ops2_fn is None else ops2_fn)(doc):
             if not enabled(doc, op):
                 continue
-            nd, viol = run_last(spec, hist, doc, op, nl_liberty)
+            nd, viol = run_last(spec, hist, doc, op, nl_liberty, route)
             part.transitions += 1
             part.evaluations += 1
             h2 = hist + [op]
@@ -711,7 +1056,7 @@ def explore(part, spec, ops_fn, tree_depth, graph_depth, nl_liberty, base_case, 
                 for op in gops(doc):
                     if not enabled(doc, op):
                         continue
-                    nd, viol = run_last(spec, hist, doc, op, nl_liberty)
+                    nd, viol = run_last(spec, hist, doc, op, nl_liberty, route)
                     part.transitions += 1
                     part.evaluations += 1
                     h2 = hist + [op]
